@@ -734,7 +734,7 @@ def gen_c04(ctx):
           "cursor report with a %d digit row and a %d digit column, every digit value (row, col >= 1)" % (dr, dc),
           "decoder::CursorPositionMatcher::decode, decoder::numbers_decode, production event automaton (table)", n + 3)
     # the 1-digit mouse shape needs ~16 min next to 13 other instances: thorough tier (quick checks stay under 15 min)
-    for (db, dc, dr, tier) in ((1, 1, 1, "thorough"), (2, 1, 1, "thorough"), (1, 2, 2, "thorough"), (2, 2, 2, "thorough")):
+    for (db, dc, dr, tier) in ((1, 1, 1, "thorough"), (2, 1, 1, "thorough"), (1, 2, 2, "thorough"), (2, 2, 2, "experimental")):
         n = 6 + db + dc + dr
         h("c04_mouse_b%dc%dr%d" % (db, dc, dr), "mouse_case::<%d, %d, %d, %d>(&MOUSE)" % (n, db, dc, dr), tier, 3000,
           "SGR mouse report with a %d digit button code, %d digit column, %d digit row, press and release" % (db, dc, dr),
